@@ -682,6 +682,47 @@ fn metric_sum_nonfinite(e: &EventD) -> bool {
     e.props.iter().any(|(k, v)| k == "metric_value" && matches!(v, Val::Sv(t) if matches!(t, Tree::Seq(_) | Tree::Tup(_) | Tree::Tvar(..)) && big(t)))
 }
 
+/// keys a re-emitting value is put under: ordinary attribute keys no signal lifts (`RE_RESERVED` in mod.rs)
+const RE_KEYS: [&str; 6] = ["v", "value", "fmt", "re\nemit", "r\u{e9}", "x.y"];
+
+/// `(otlp-re SIGNAL OUTER INNER)`: OUTER carries one or two values whose `Display` code emits INNER through the
+/// emitter that is formatting them — as attributes, and half of the time also named by a hole of the template
+/// (the message is formatted inside the record encoder: log body, span name, metric name).
+fn otlp_re_case(rng: &mut Rng, tier: Tier, signal: &str, outer: &EventD) -> Option<String> {
+    let mut outer = outer.clone();
+    let n = if rng.chance(1, 4) { 2 } else { 1 };
+    for _ in 0..n {
+        let free: Vec<&str> = RE_KEYS.iter().copied().filter(|k| !outer.props.iter().any(|(k2, _)| k2 == k)).collect();
+        let key = rng.pick(&free).to_string();
+        let at = rng.usize(outer.props.len() + 1);
+        outer.props.insert(at, (key.clone(), Val::Reemit(string(rng))));
+        if rng.bool() {
+            let at = rng.usize(outer.tpl.len() + 1);
+            outer.tpl.insert(at, PartD::Hole(key));
+        }
+    }
+    // the nested event: mostly one the signal takes, simple or generic
+    let mut inner = if rng.chance(1, 3) {
+        event(rng, AVOID_OTLP, tier)
+    } else {
+        EventD {
+            mdl: "fmt".into(),
+            tpl: vec![PartD::Text("formatting a value".into())],
+            extent: ExtentD::None,
+            unique: false,
+            props: vec![("depth".into(), Val::Int(Int::signed(Ty::I32, rng.range(0, 9) as i128)))],
+        }
+    };
+    shape(rng, &mut inner, signal, AVOID_OTLP);
+    if inner.mdl == outer.mdl {
+        inner.mdl.push_str("::fmt");
+    }
+    if signal == "metrics" && (metric_sum_nonfinite(&outer) || metric_sum_nonfinite(&inner)) {
+        return None;
+    }
+    Some(format!("(otlp-re {} {} {})", signal, outer.to_sexp()?, inner.to_sexp()?))
+}
+
 pub fn gen_otlp(rng: &mut Rng, tier: Tier, n: usize) -> Vec<String> {
     gen_stream(rng, tier, n, AVOID_OTLP, |rng, e| {
         let signal = *rng.pick(&["logs", "logs", "traces", "traces", "metrics", "metrics", "metrics"]);
@@ -689,6 +730,10 @@ pub fn gen_otlp(rng: &mut Rng, tier: Tier, n: usize) -> Vec<String> {
         shape(rng, &mut e, signal, AVOID_OTLP);
         if signal == "metrics" && metric_sum_nonfinite(&e) {
             return None;
+        }
+        // re-entrancy: a value of the event emits through the same emitter while it is being formatted
+        if rng.chance(1, 8) {
+            return otlp_re_case(rng, tier, signal, &e);
         }
         Some(format!("(otlp {} {})", signal, e.to_sexp()?))
     })
